@@ -1,7 +1,7 @@
 (* Common/Bytes.v — bytes as N, big-endian integers, list helpers.
    Executable definitions first, characterising lemmas after.  Stdlib only. *)
 From Coq Require Export List Arith NArith Bool Lia.
-From Coq Require Import ZifyBool ZifyN.
+From Coq Require Import ZifyBool ZifyN ZifyNat.
 Export ListNotations.
 Local Open Scope N_scope.
 
@@ -126,4 +126,14 @@ Lemma take_exact_none {A} n (l : list A) :
 Proof.
   unfold take_exact. destruct (n <=? lenN l) eqn:E; split; intros H;
     try discriminate; try reflexivity; lia.
+Qed.
+
+(* finite sweep lifted to a bounded universal statement *)
+Lemma forallb_range (P : N -> bool) (k : nat) :
+  forallb P (map N.of_nat (seq 0 k)) = true ->
+  forall n, n < N.of_nat k -> P n = true.
+Proof.
+  intros H n Hn. rewrite forallb_forall in H. apply H.
+  rewrite in_map_iff. exists (N.to_nat n). split; [apply N2Nat.id|].
+  apply in_seq. lia.
 Qed.
